@@ -429,6 +429,13 @@ def run(ck, F, tier):
     ck.inst("G5", "finished-on-every-path", okf, runb.span, "run(): do_run() result is kept, Finished is sent (when a reporter exists), only then is the result propagated with `?`: %s" % seq)
     finals = [s for s in calls if s["detail"] == BER + "Statistics::from_current"]
     rep_after = [s for s in finals if not any(l[0] == "while" for l in s["loops"])]
+    # the report at the end of a point is unconditional (it exists whenever there is a reporter): the throttling by the report interval
+    # applies to the progress reports inside the collection loop only
+    timed = lambda s_: any("Instant::now" in repr(g_) for g_, _ in s_["guards"])
+    after_reports = [s_ for s_ in rep_after if any("self.reporter" in repr(g_) for g_, _ in s_["guards"])]
+    ck.inst("G5", "final-report-not-throttled", bool(after_reports) and not any(timed(s_) for s_ in after_reports), after_reports[0]["sp"] if after_reports else rb.span,
+            "the statistics report sent after the collection loop is not subject to the report interval (%d such report(s), %d of them timed)" % (
+                len(after_reports), sum(timed(s_) for s_ in after_reports)))
     ck.inst("G5", "final-report-per-point", len(rep_after) >= 2, rep_after[0]["sp"] if rep_after else rb.span,
             "after the collection loop a final statistics report is sent (report!(.., true)) and the statistics are stored, once per Eb/N0 point")
 
